@@ -383,6 +383,17 @@ def r05_4(ctx, v, g, helpers):
     if region_loop is None:
         raise AnalysisError("R05.4", g.where(), "cannot find the loop over the regions")
     h, call = next((h, c) for h, c in helpers if any(x is c for x in ast.walk(region_loop)))
+    # one region without indexed nodes must not stop the others: the per-region search hands back an empty list
+    from .c09 import guards_of as _guards_of
+
+    for scope in [h] + [g]:
+        body_ = scope.node if scope is h else region_loop
+        for rs in ast.walk(body_):
+            if isinstance(rs, ast.Raise) or (isinstance(rs, ast.Expr) and isinstance(rs.value, ast.Call) and norm(rs.value.func) in ("sys.exit", "exit")):
+                gs = [(norm(t_), pol_) for t_, pol_ in _guards_of(scope.node, rs)]
+                empt = [t_ for t_, pol_ in gs if (pol_ and (("len(" in t_ and ("== 0" in t_ or "< 1" in t_)) or t_.endswith("== []"))) or (not pol_ and t_.isidentifier())]
+                if empt:
+                    ctx.violated("R05.4", scope.where(rs), f"the search of one region stops the command when it finds no indexed node (`{empt[0][:50]}`): in a list of regions, a region that covers only nodes without alignments makes the records of all the other regions disappear (a --node list with such a node still prints the others)", key_of(scope, f"empty-region-aborts:{empt[0][:40]}"))
     asg = [st for st in walk_stmts(region_loop.body) if isinstance(st, ast.Assign) and st.value is call]
     if not asg:
         raise AnalysisError("R05.4", g.where(call), "the search result is not bound to a variable")
@@ -467,6 +478,11 @@ def r05_4(ctx, v, g, helpers):
     # the per-contig list: all index keys of that contig (tuple keys), sorted by start
     filt = [n for n in walk_own(g.node) if isinstance(n, ast.Compare) and len(n.ops) == 1 and isinstance(n.ops[0], ast.Eq) and isinstance(n.left, ast.Subscript) and const_value(n.left.slice) == 1 and isinstance(n.comparators[0], ast.Name)]
     ctx.check(len(filt) == 1, "R05.4", g.where(), "the nodes searched for a region are the index entries of the region's contig (key position 1 == contig)", key_of(g, f"contig-filter:{[norm(x) for x in filt]}"))
+    for fc in filt:
+        for b in walk_own(g.node):
+            if isinstance(b, ast.BoolOp) and isinstance(b.op, ast.Or) and any(v is fc for v in b.values):
+                alt = [norm(v) for v in b.values if v is not fc]
+                ctx.violated("R05.4", g.where(b), f"the per-contig filter also lets through index entries with `{alt[0][:60]}`: nodes of another contig (e.g. `GRCh38#0#chr1` for a region on `chr1`) that lie at the same coordinates are searched too, and their alignments are returned for the region", key_of(g, f"contig-filter-widened:{alt[0][:40]}"))
 
 
 def r05_5(ctx, funcs, g):
